@@ -42,7 +42,7 @@ Proof.
       * replace (S i + f') with (i + S f') by lia. exact H2.
 Qed.
 
-Definition primeN (p : N) : bool := trialN (N.to_nat (N.sqrt p) + 1) 2 p.
+Definition primeN (p : N) : bool := trialN (S (N.to_nat (N.sqrt p))) 2 p.
 
 Lemma primeN_sound : forall p : nat, 100 < p -> primeN (N.of_nat p) = true -> is_prime p = true.
 Proof.
@@ -51,9 +51,9 @@ Proof.
   { rewrite <- H. apply trial_fuel; [nia|].
     pose proof (N.sqrt_spec (N.of_nat p) ltac:(lia)) as [_ Hs].
     set (r := N.sqrt (N.of_nat p)) in *.
-    assert (Hr : p < (N.to_nat r + 1) * (N.to_nat r + 1)).
-    { assert (E : N.of_nat ((N.to_nat r + 1) * (N.to_nat r + 1)) = (N.succ r * N.succ r)%N).
-      { rewrite Nat2N.inj_mul. replace (N.of_nat (N.to_nat r + 1)) with (N.succ r) by lia. reflexivity. }
+    assert (Hr : p < (S (N.to_nat r)) * (S (N.to_nat r))).
+    { assert (E : N.of_nat ((S (N.to_nat r)) * (S (N.to_nat r))) = (N.succ r * N.succ r)%N).
+      { rewrite Nat2N.inj_mul. replace (N.of_nat (S (N.to_nat r))) with (N.succ r) by lia. reflexivity. }
       lia. }
     nia. }
   unfold is_prime. destruct (Nat.leb_spec p 1); [lia|].
@@ -94,7 +94,7 @@ Fixpoint chain (fuel : nat) (lo B : N) : bool :=
 Lemma chain_sound : forall fuel lo B, chain fuel lo B = true ->
     forall n, (lo <= n <= B)%N -> exists p, (n <= p)%N /\ (p < n + n + 2)%N /\ primeN p = true.
 Proof.
-  induction fuel as [|f IH]; intros lo B H n Hn; simpl in H; [discriminate|].
+  induction fuel as [|f IH]; intros lo B H n Hn; cbn [chain] in H; [discriminate|].
   destruct (N.ltb_spec B lo); [lia|].
   destruct (down 1000 (lo + lo + 1) lo) as [p|] eqn:Ed; [|discriminate].
   apply down_spec in Ed; [|lia]. destruct Ed as [A Pp].
@@ -107,15 +107,21 @@ Qed.
 Definition gap_boundN : N := 2147483648.
 Definition gap_bound : nat := N.to_nat gap_boundN.
 
+Lemma gap_bound_N : N.of_nat gap_bound = gap_boundN.
+Proof. apply N2Nat.id. Qed.
+Global Opaque gap_bound.
+
 Lemma chain_gap_bound : chain 64 101 gap_boundN = true.
 Proof. vm_compute. reflexivity. Qed.
 
 Theorem prime_gap_checked : prime_gap_upto gap_bound.
 Proof.
-  intros n Hn. unfold gap_bound, gap_boundN in Hn. destruct (le_lt_dec n 100) as [Hs|Hb].
+  intros n Hn.
+  assert (HN : (N.of_nat n <= gap_boundN)%N) by (rewrite <- gap_bound_N; lia).
+  destruct (le_lt_dec n 100) as [Hs|Hb].
   - apply prime_gap_upto_2300. lia.
   - destruct (chain_sound _ _ _ chain_gap_bound (N.of_nat n)) as (p & A & Bq & C).
-    { unfold gap_boundN. lia. }
+    { split; [lia|exact HN]. }
     exists (N.to_nat p). split; [lia|].
     apply primeN_sound; [lia|]. now rewrite N2Nat.id.
 Qed.
